@@ -38,13 +38,16 @@ func TestDifferential(t *testing.T) {
 	if err != nil {
 		t.Fatal(err)
 	}
-	known := map[string]string{"main": "", "run": "", "chain": "", "emit": "", "base.tag": ""}
+	known := map[string]string{"main": "", "run": "", "chain": "", "emit": "", "base.tag": "", "structs": ""}
 	_, _, rep, err := Normalize(fset, files, pkg, info, known, check)
 	if err != nil {
 		t.Fatalf("normalise: %v", err)
 	}
-	t.Logf("expanded=%v removed=%v skipped=%v rounds=%d", rep.Expanded, rep.Removed, rep.Skipped, rep.Rounds)
-	for _, must := range []string{"isContainer", "classify", "both", "node.depth", "node.last", "wrapper.bump", "outcome", "finish", "sum", "twice", "double", "describe"} {
+	t.Logf("expanded=%v removed=%v skipped=%v rounds=%d split=%v", rep.Expanded, rep.Removed, rep.Skipped, rep.Rounds, rep.Split)
+	if len(rep.Split) < 2 {
+		t.Errorf("expected the tracker and the verdict variables to be split, got %v", rep.Split)
+	}
+	for _, must := range []string{"isContainer", "classify", "both", "node.depth", "node.last", "wrapper.bump", "outcome", "finish", "sum", "twice", "double", "describe", "tracker.add", "tracker.summary", "newVerdict", "verdict.rejects", "keep"} {
 		if rep.Expanded[must] == 0 {
 			t.Errorf("helper %s was not expanded", must)
 		}
@@ -53,6 +56,9 @@ func TestDifferential(t *testing.T) {
 		if rep.Expanded[never] != 0 {
 			t.Errorf("%s must not be expanded", never)
 		}
+	}
+	if os.Getenv("NORMAL_DUMP") != "" {
+		printer.Fprint(os.Stderr, token.NewFileSet(), f)
 	}
 	var buf bytes.Buffer
 	if err := printer.Fprint(&buf, token.NewFileSet(), f); err != nil {
